@@ -83,7 +83,7 @@ def prepare(chk, rustflags="", only_modules=None):
         hashes["src/" + rel] = core.sha(os.path.join(core.REPO, "src", rel))
         body = open(os.path.join(HARNESS_DIR, fn)).read()
         with open(target, "a") as f:
-            f.write("\n#[cfg(kani)]\n#[allow(unused_imports, dead_code, unused_variables, unused_mut)]\npub(crate) mod verif_kani {\n    use super::*;\n    use crate::verif_common::*;\n    use crate::trace;\n    use crate::native_harness;\n"
+            f.write("\n#[cfg(kani)]\n#[allow(unused_imports, dead_code, unused_variables, unused_mut)]\npub(crate) mod verif_kani {\n    use super::*;\n    use crate::verif_common::*;\n    use crate::trace;\n    use crate::native_harness;\n    use crate::native_harness_rec;\n"
                     + body + "\n// VERIF-PLAYBACK-INSERT\n}\n")
     kc = core.KaniCrate(crate, os.path.join(core.CACHE, "target-crate"), "K-crate (Kani/CBMC)", rustflags)
     kc.hashes = hashes
@@ -94,7 +94,7 @@ def harnesses_in(fn, prefix):
     src = open(os.path.join(HARNESS_DIR, fn)).read()
     names = re.findall(r"#\[kani::proof\](?:\s*#\[[^\]]*\])*\s*fn (%s\w*)" % prefix, src)
     names += re.findall(r"_harness!\(\s*(%s\w*)," % prefix, src)
-    names += re.findall(r"native_harness! \{(?:\s*#\[[^\]]*\])*\s*fn (%s\w*)" % prefix, src)
+    names += re.findall(r"native_harness(?:_rec)?! \{(?:\s*#\[[^\]]*\])*\s*fn (%s\w*)" % prefix, src)
     return sorted(set(names))
 
 
@@ -117,6 +117,24 @@ DEFAULT_UNWIND_RULES = [
 ]
 
 
+# per-harness recursion bounds for the recursive representations (name prefix -> rules); the harness data nests at most this deep
+EXTRA_RULES = [
+    ("c15_", [(r"^builtin::sequence::XSequence::<.*>::(len|get)$", 1)]),
+    ("c16_", [(r"^builtin::generators::XGenerator::<.*>::(_iter|iter|len)", 2), (r"^builtin::sequence::XSequence::<.*>::(len|get)$", 1)]),
+    ("c06_", [(r"^builtin::sequence::XSequence::<.*>::(len|get)$", 1)]),
+    ("c10_", [(r"^builtin::sequence::XSequence::<.*>::(len|get)$", 1)]),
+    ("c17_", [(r"^builtin::sequence::XSequence::<.*>::(len|get)$", 1)]),
+]
+
+
+def rules_for(name):
+    rules = list(DEFAULT_UNWIND_RULES)
+    for prefix, extra in EXTRA_RULES:
+        if name.startswith(prefix):
+            rules = extra + rules
+    return rules
+
+
 def specs_for(chk, crate, selections, timeout, extra=None, cbmc_args=None):
     """selections: [(harness file, name prefix)] -> harness specs; names ending in _t are thorough-tier only"""
     specs = []
@@ -130,7 +148,7 @@ def specs_for(chk, crate, selections, timeout, extra=None, cbmc_args=None):
                 continue
             rel = "src/" + module_files()[fn]
             specs.append(dict(name="%s::%s" % (module_path(fn), n), timeout=timeout, extra=extra, cbmc_args=cbmc_args,
-                              unwind_rules=DEFAULT_UNWIND_RULES,
+                              unwind_rules=rules_for(n),
                               info=dict(functions_encoded="%s (sha256 %s) + callees, whole crate compiled" % (rel, crate.hashes.get(rel)),
                                         timeout=timeout)))
     return specs
